@@ -372,7 +372,12 @@ func sharedWork(file []byte) {
 		j, _ := gen.BuildJPEG([]gen.JSeg{gen.SOI(), gen.JFIF(), gen.ICCSeg(1, 1, prof), gen.DQT(0),
 			gen.SOF(0xC0, 8, 21, 34, gen.StdComps(3, 0x22)), gen.DHT(0, 0), gen.SOS(3, gen.EntropyBytes(60, 5)), gen.EOI()})
 		w, _ := gen.BuildWebP([]gen.WChunk{gen.VP8X(gen.VP8XICC, 55, 66), gen.WC("ICCP", profW), gen.VP8(55, 66, 0, 0, gen.VP8Body(40))}, -1)
-		others = [][]byte{file, j, w, gen.Payload(300, 1, false),
+		// files with more than 4 KiB of data the loaders skip (ancillary chunk, EXIF) ahead of what they want
+		bigp, _ := gen.BuildPNG([]gen.PNGChunk{gen.IHDR(33, 44, 8, 6, 0), gen.Chunk("tEXt", gen.Payload(9000, 7, true)),
+			gen.ICCP("big skip", 0, gen.Deflate(prof, 6)), gen.Chunk("IDAT", gen.Payload(40, 1, false)), gen.Chunk("IEND", nil)})
+		bigw, _ := gen.BuildWebP([]gen.WChunk{gen.VP8X(gen.VP8XICC|0x08, 55, 66), gen.WC("ICCP", profW), gen.WC("EXIF", gen.Payload(12000, 8, true)),
+			gen.VP8(55, 66, 0, 0, gen.VP8Body(40))}, -1)
+		others = [][]byte{file, j, w, gen.Payload(300, 1, false), bigp, bigw, bigp,
 			// streams cut inside a structure (the loaders' error paths run concurrently too)
 			j[:len(j)/2], j[:30], w[:len(w)/2], file[:len(file)/3], j[:len(j)-3]}
 	}
@@ -584,6 +589,20 @@ func ownResultWork() {
 			return v.Pix
 		}
 		return nil
+	}
+	// few rows, many columns, many workers: the conversion has finished when it returns
+	{
+		wide := image.NewNRGBA(image.Rect(0, 0, 20000, 3))
+		for i := range wide.Pix {
+			wide.Pix[i] = byte(i*11 + 5)
+		}
+		alone := prism.ConvertImageToRGBA64(wide, 1)
+		got := prism.ConvertImageToRGBA64(wide, 64)
+		if !bytes.Equal(got.Pix, alone.Pix) {
+			fmt.Printf("VALUE-MISMATCH target=prism.ConvertImageToRGBA64(3 rows, parallelism 64): the result differs from parallelism 1 at the moment the call returns\n")
+			sharedWorkFailed = true
+			return
+		}
 	}
 	for si, mkSrc := range mk {
 		for ci, conv := range convs {
